@@ -829,6 +829,42 @@ fn judge_image(out: &mut CaseOut, base: &Base, image: &Image, damaged: &PathBuf,
     Observed { outcome }
 }
 
+/// Every footer position of every table of one small base, overlaid with continuation-bit bytes
+/// (for C09: none of the calls made on such an image may panic or hang). Returns (images, images on
+/// which a call panicked).
+pub fn footer_sweep(seed: u64, idx: u64) -> (u64, u64) {
+    let mut rng = Rng::new(mix(&[seed, idx], "c15-footer-sweep"));
+    let base = match build_base(&mut rng, idx % 2) {
+        Ok(b) => b,
+        Err(_) => return (0, 0),
+    };
+    let mut scratch = CaseOut::new();
+    let (mut images, mut panicked) = (0u64, 0u64);
+    let tables: Vec<PathBuf> = base.image.files.keys().filter(|p| classify(p) == PathClass::Table).cloned().collect();
+    for path in &tables {
+        let len = base.image.files[path].len();
+        if len < 48 {
+            continue;
+        }
+        for p in 0..12usize {
+            for fill in [0xffu8, 0x80u8] {
+                watch::tick();
+                let start = len - 48 + p;
+                let run = 10 + (p % 3) * 9;
+                let mut image = base.image.clone();
+                image.mutate(path, |b| b[start..start + run].iter_mut().for_each(|x| *x = fill));
+                let ctx = json!({"file": path.display().to_string(), "footer_position": p, "fill": fill});
+                images += 1;
+                let r = catch_unwind(AssertUnwindSafe(|| judge_image(&mut scratch, &base, &image, path, PathClass::Table, "footer", &ctx, &mut rng)));
+                if r.is_err() {
+                    panicked += 1;
+                }
+            }
+        }
+    }
+    (images, panicked)
+}
+
 pub fn run_case(tier: &str, seed: u64, idx: u64) -> CaseOut {
     let mut out = CaseOut::new();
     let base_idx = idx / SLICES;
